@@ -112,7 +112,9 @@ fn main() {
         }
     }
     // coverage-guided stage (thorough tier only; VERIF_NO_FUZZ=1 skips it, VERIF_FUZZ_RUNS overrides the budget)
-    if tier == Tier::Thorough && std::env::var("VERIF_NO_FUZZ").is_err() {
+    // (the fuzz binaries are built separately, always with overflow checks and debug assertions: for the
+    // two-profile properties the campaign runs once, in the pass of the checked profile)
+    if tier == Tier::Thorough && std::env::var("VERIF_NO_FUZZ").is_err() && profile == "checked" {
         let runs = std::env::var("VERIF_FUZZ_RUNS").ok().and_then(|s| s.parse().ok()).unwrap_or(prop.fuzz_runs);
         if runs > 0 {
             dmcheck::fuzzstage::fuzz_stage(&ctx, prop, runs);
